@@ -21,6 +21,11 @@ ANCHORS = [
 ]
 
 
+FAKE_NOWS = [(2021, 3, 28, 0, 30, 0), (2021, 3, 28, 23, 59, 40), (2021, 10, 31, 0, 0, 20), (2020, 2, 29, 12, 0, 0), (2020, 3, 1, 0, 0, 10),
+             (2021, 12, 31, 23, 59, 30), (2022, 1, 1, 0, 0, 5), (2021, 11, 7, 0, 10, 0), (2021, 3, 14, 1, 30, 0), (2023, 7, 31, 23, 0, 0),
+             (2024, 1, 31, 6, 0, 0), (1999, 12, 31, 23, 59, 0)]
+
+
 def to_ts(naive, tz):
     return int(naive.replace(tzinfo=zoneinfo.ZoneInfo(tz)).timestamp())
 
@@ -51,8 +56,14 @@ def run_job(job):
             relative = rng.random() < 0.25
             d = os.path.join(w, "d%d" % li)
             os.mkdir(d)
+            fake = None
             if relative:
                 now = datetime.datetime.now(zoneinfo.ZoneInfo(tz))
+                if rng.random() < 0.75:
+                    # controlled clock (LD_PRELOAD shim): instants next to local day edges, month/year ends, DST days
+                    naive = rng.choice(FAKE_NOWS)
+                    fake = to_ts(datetime.datetime(*naive), tz)
+                    now = datetime.datetime.fromtimestamp(fake, zoneinfo.ZoneInfo(tz))
                 off = rng.choice([0, -1, -2, -7, 1, 3])
                 lit = {0: rng.choice(["today", "-0", "+0"]), -1: rng.choice(["yesterday", "-1"])}.get(off, "%+d" % off)
                 iv = model.date_interval(lit, tz, now)
@@ -95,9 +106,11 @@ def run_job(job):
                 spelled = rng.choice(ALIASES[op])
                 q = "name, modified from d%d where modified %s %s into list" % (li, spelled, littext)
                 day0 = datetime.datetime.now(zoneinfo.ZoneInfo(tz)).date()
-                r = runner.run([q], cwd=w, home=home, tz=tz)
+                r = runner.run([q], cwd=w, home=home, tz=tz, fake_epoch=fake)
                 res.ev()
                 day1 = datetime.datetime.now(zoneinfo.ZoneInfo(tz)).date()
+                if fake is not None:
+                    res.count("runs_under_controlled_clock")
                 ctx = {"query": q, "tz": tz, "files": {k: model.fmt_dt(v) for k, v in files.items()},
                        "interval": [model.fmt_dt(a), model.fmt_dt(b)], "result": r.brief()}
                 if relative and day0 != day1:
@@ -171,6 +184,8 @@ def main(chk):
              "subset; distinct by (tz, literal, operator, quoting).",
         assumptions=["interval semantics from the property statement (closed interval of local seconds; </> strictly outside, <=/>= inclusive of the far edge)",
                      "local time is computed with Python zoneinfo from the same tzdata the binary uses",
-                     "relative literals are judged only if the local date did not change during the run"],
-        require={"op_prec": 36, "tz": 5},
+                     "relative literals are judged only if the local date did not change during the run; 75% of them run under a "
+                     "controlled clock (LD_PRELOAD shim pinning CLOCK_REALTIME, fsv/native/fakeclock.c) at instants next to day edges, "
+                     "month/year ends and DST switches"],
+        require={"op_prec": 36, "tz": 5, "runs_under_controlled_clock": 100},
     )
